@@ -24,12 +24,13 @@ type pList struct {
 
 // GUIDs in wire form (Data1..3 little-endian, Data4 as is), written out by hand.
 var typeGUIDWire = map[string]string{
-	"sha256": "2616c4c14c509240aca941f936934328",
-	"x509":   "a159c0a5e494a74a87b5ab155c2bf072",
-	"sha1":   "12a56c8210cfc94ab187be01496631bd",
-	"extern": "ed8c2e45ffdf8c4bae015118862e682c",
-	"rsa2048": "e866573c9c26344eaa14ed776e85b3b6",
-	"bogus":  "00112233445566778899aabbccddeeff",
+	"sha256":   "2616c4c14c509240aca941f936934328",
+	"x509":     "a159c0a5e494a74a87b5ab155c2bf072",
+	"sha1":     "12a56c8210cfc94ab187be01496631bd",
+	"extern":   "ed8c2e45ffdf8c4bae015118862e682c",
+	"rsa2048":  "e866573c9c26344eaa14ed776e85b3b6",
+	"bogus":    "00112233445566778899aabbccddeeff",
+	"zeroguid": "00000000000000000000000000000000",
 }
 var ownerGUIDWire = map[string]string{
 	"o1": "a1a2a3a4b1b2c1c2d1d2d3d4d5d6d7d8",
